@@ -105,6 +105,8 @@ type Exec struct {
 	adopted  chan struct{}
 	clock    int
 	progress chan struct{}
+	expect      int
+	adoptedObjs map[interface{}]bool
 	// OnPoint, if set, is called at every point while no thread runs (invariant monitors).
 	OnPoint func(x *Exec, kind string)
 }
@@ -127,7 +129,7 @@ func Run(prefix, expectN []int, cfg Config, body func(x *Exec)) *Result {
 		cfg.Watchdog = 30 * time.Second
 	}
 	x := &Exec{prefix: prefix, expectN: expectN, res: &Result{RacyAt: -1}, horizon: cfg.Horizon,
-		doneCh: make(chan struct{}), adopted: make(chan struct{}, 16), progress: make(chan struct{}, 1)}
+		doneCh: make(chan struct{}), adopted: make(chan struct{}, 16), progress: make(chan struct{}, 1), adoptedObjs: map[interface{}]bool{}}
 	install(x)
 	defer uninstall()
 	t0 := &thread{id: 0, name: "main", wake: make(chan struct{}, 1)}
@@ -206,6 +208,9 @@ func (x *Exec) Quiescent(kind string) { x.point(kind, nil, true) }
 // Adopt waits until n goroutines started by the code under test have registered
 // themselves as scheduler threads (see AdoptStart).
 func (x *Exec) Adopt(n int) {
+	x.mu.Lock()
+	x.expect += n
+	x.mu.Unlock()
 	for i := 0; i < n; i++ {
 		select {
 		case <-x.adopted:
@@ -217,13 +222,27 @@ func (x *Exec) Adopt(n int) {
 
 // adoptStart is called on a goroutine created by the code under test: it
 // becomes a scheduler thread and parks until scheduled.
-func (x *Exec) adoptStart(name string) {
-	x.mu.Lock()
+func (x *Exec) adoptStart(name string, obj interface{}) bool {
+	// wait until the harness asks for an adoption (the goroutine may start before Adopt is called)
+	for i := 0; ; i++ {
+		x.mu.Lock()
+		if x.expect > 0 {
+			x.expect--
+			break
+		}
+		x.mu.Unlock()
+		if x.finished || current != x || i > 20000 {
+			return false // not a goroutine of this execution: let it run free
+		}
+		time.Sleep(50 * time.Microsecond)
+	}
+	x.adoptedObjs[obj] = true
 	t := &thread{id: len(x.threads), name: name, wake: make(chan struct{}, 1)}
 	x.threads = append(x.threads, t)
 	x.mu.Unlock()
 	x.adopted <- struct{}{}
 	<-t.wake
+	return true
 }
 
 // adoptEnd is called when the adopted goroutine that is currently running ends.
@@ -378,6 +397,9 @@ var current *Exec
 
 func hookAwait(kind string, obj interface{}, ready func() bool) {
 	if x := current; x != nil && !x.finished {
+		if (kind == "expire.tick" || kind == "close.wait") && !x.adoptedObjs[obj] {
+			return // an engine that does not belong to this execution
+		}
 		x.point(kind, ready, false)
 	}
 }
@@ -428,12 +450,12 @@ func hookRacy(site string) {
 
 func hookThreadStart(name string, obj interface{}) {
 	if x := current; x != nil {
-		x.adoptStart(name)
+		x.adoptStart(name, obj)
 	}
 }
 
 func hookThreadEnd(name string, obj interface{}) {
-	if x := current; x != nil && !x.finished {
+	if x := current; x != nil && !x.finished && x.adoptedObjs[obj] {
 		x.adoptEnd()
 	}
 }
